@@ -374,7 +374,9 @@ class Indentation(afmformats.AFMForceDistance):
                               names=names,
                               lda=lda)
             rt = rater.rate(datasets=self)[0]
-            self._rating = (curhash, regressor, training_set, names, lda, rt)
+            # (remember a copy of `names`; the user might edit the list)
+            self._rating = (curhash, regressor, training_set,
+                            copy.copy(names), lda, rt)
         else:
             # Use cached rating
             rt = self._rating[-1]
